@@ -18,19 +18,18 @@ theorem gate_refuses (W : World σ) (allow : List String) (m : String) (c : Call
     (hm : m ∉ allow) (hc : ¬ authorized W st c) :
     ∃ code, gate W allow m c st = (st, some code) := by
   cases c with
-  | noDelegation => exact ⟨_, rfl⟩
+  | noDelegation => exact ⟨"internal", by simp [gate]⟩
   | noCert => exact ⟨"unauthenticated", by simp [gate, hm]⟩
   | badSubject => exact ⟨"unauthenticated", by simp [gate, hm]⟩
   | panicSubject => exact ⟨"panic", by simp [gate, hm]⟩
   | token t =>
     simp only [authorized, not_exists] at hc
     refine ⟨"unauthenticated", ?_⟩
-    simp only [gate, hm, if_false]
     cases h : W.tokenRec st t with
     | client old => exact absurd h (hc old)
-    | absent => rfl
-    | kvError => rfl
-    | undecodable => rfl
+    | absent => simp [gate, hm, h]
+    | kvError => simp [gate, hm, h]
+    | undecodable => simp [gate, hm, h]
 
 /-- C25: a call to a non-allow-listed method by a caller without verified certificate or with an
 unregistered token is refused, the handler never runs (whatever it is, whatever the body) and the DHT is
@@ -43,8 +42,7 @@ theorem refused_changes_nothing (W : World σ) (allow : List String) (handler : 
   by_cases hr : m ∉ allMethods
   · simp [hr]
   · obtain ⟨code, hg⟩ := gate_refuses W allow m c st hm hc
-    simp only [hr, if_false, hg]
-    exact ⟨rfl, Or.inr ⟨code, rfl⟩⟩
+    refine ⟨?_, Or.inr ⟨code, ?_⟩⟩ <;> simp [hr, hg]
 
 /-- Conversely: whenever a handler ran, the method was allow-listed or the caller was authorized; and a
 context without delegation never reaches any handler. -/
